@@ -50,6 +50,25 @@ class DriverListener:
                 return ('const', tuple(x[1] for x in vals), n)
         return ('loc', obj, path)
 
+    def _caller_obj(self, I, st, obj, what, node):
+        # the caller's key buffer and settings object belong to the caller: an operation that writes them changes what the next
+        # operation (which is handed the same objects) starts from
+        if obj in (KEY, ('ext', 'settings')) and getattr(self.D, 'current_op', None) not in (None, 'ctor'):
+            fn = self.cur(I)
+            log(st, 'CALLERWRITE', str(obj[1]), what, nloc(node), fn['q'] if fn else '?')
+
+    def on_store(self, I, st, loc, val, node):
+        if loc is not None:
+            self._caller_obj(I, st, loc[0], 'store', node)
+
+    def on_memset(self, I, st, node, dst, val, size):
+        if dst is not None and dst[0] == 'p':
+            self._caller_obj(I, st, dst[1], 'memset', node)
+
+    def on_memcpy(self, I, st, node, dst, src, size):
+        if dst is not None and dst[0] == 'p':
+            self._caller_obj(I, st, dst[1], 'memcpy', node)
+
     def on_fwrite(self, I, st, node, root, pos, size, src, fval):
         fn = self.cur(I)
         log(st, 'W', root, pos, size, self.src_kind(I, st, src, size), nloc(node), fn['q'] if fn else '?')
@@ -322,7 +341,8 @@ class Driver:
                 args.append(P(OUT, ()))
             elif p['n'] == 'key':
                 args.append(P(KEY, (0,)))
-            elif t.get('k') == 'rec' and t.get('rec') == 'Settings':
+            elif (t.get('k') == 'rec' and t.get('rec') == 'Settings') or (
+                    t.get('k') in ('ref', 'ptr') and prog.type(t.get('to')).get('rec') == 'Settings'):
                 args.append(P(SET, ()))
             elif 'thread' in p['n']:
                 args.append(C(T))
